@@ -90,7 +90,11 @@ class FileScanHelper:
                 did_fail_any_file = True
             if verif_probe.ENABLED:
                 verif_probe.emit(
-                    "file_end", file="(stdin)", fix=False, ok=True, fixed=False
+                    "file_end",
+                    file="(stdin)",
+                    fix=False,
+                    ok=not did_fail_any_file,
+                    fixed=False,
                 )
 
         else:
